@@ -40,8 +40,8 @@ def build():
                      'the real _MetricCache under deterministic two-thread schedules (sys.settrace): every history of <= 2 (quick) / 3 (thorough) store / drain_metric calls over 2 metrics x 2 timestamps, with the other thread (writer: 1, 2 or all drains; receiver: one of 4 stores) run at every line step of the traced call at which the cache lock is not held; MAX_CACHE_SIZE in {1,2,3,inf} plus pre-filled caches of 20 with flow control (where cacheFull can fire), all seven strategies',
                      'schedules at line granularity of cache.py give the concrete interleaving that the lock-invariant / rely-guarantee obligations only refute abstractly (byte-code level races inside one line stay out of reach)'),
              Bounded('C02/native/cache_contracts_cross_check', 'replay/cache_native.py',
-                     ['--sweep', '3', 'accept_view,lastwrite,frame_others,same_metric_other_timestamps,size_exact,new_metrics,sorted_unique,items_exact,removed,size'],
-                     ['--sweep', '4', 'accept_view,lastwrite,frame_others,same_metric_other_timestamps,size_exact,new_metrics,sorted_unique,items_exact,removed,size'],
+                     ['--sweep', '3', 'accept_view,lastwrite,frame_others,same_metric_other_timestamps,size_exact,sorted_unique,items_exact,removed,size'],
+                     ['--sweep', '4', 'accept_view,lastwrite,frame_others,same_metric_other_timestamps,size_exact,sorted_unique,items_exact,removed,size'],
                      'every sequential store/drain history of length <= 3 (quick) / 4 (thorough) over 2 metrics x 2 timestamps, MAX_CACHE_SIZE in {1,2,3,inf}, flow control on/off, all seven strategy settings, against a reference dict',
                      "cross-check of the contracts' clauses on the real code by exhaustive short histories (it also stands in when the symbolic engine cannot process a changed function); the clauses themselves are discharged obligations above")],
     trusted_base=['A-ENGINE', 'A-SMT', 'A-GIL', 'A-THREADS', 'A-LIB(dict/defaultdict/deque/sorted models)', 'A-PICKLE'],
